@@ -93,7 +93,21 @@ class C11(Spec):
     driver = 'sort'
     lib_srcs = ['array.c', 'vector.c', 'memory.c']
     driver_extra = '-Wl,--wrap=rand'
-    header_words = ('esize', 'arr', 'vcap', 'cmpmode')
+    header_words = ('esize', 'arr', 'vcap', 'cmpmode', 'swapmode')
+
+    def more_variants(self, cases, tier, seed):
+        # every third case that sorts or reverses once more with a caller's swap function that works in place, ignores the
+        # scratch and is only correct for two distinct elements (and with scratch == NULL for the raw-array calls)
+        out, n = [], 0
+        for c in cases:
+            if any(h.split()[0] == 'swapmode' for h in c.header):
+                continue
+            if not any(o.split()[0].lstrip('v') in ('sort', 'sortlcg', 'reverse') for o in c.ops):
+                continue
+            n += 1
+            if n % 3 == 0:
+                out.append(Case(c.name + 'x', c.header + ['swapmode 1'], c.ops, c.origin))
+        return out
     rule = ('a case = one array (keys, element size) + operations, each applied to a fresh copy: every selector of '
             'cstl_raw_array_sort (4 named + out-of-range), the vector entry points, reverse, find and (sorted arrays) '
             'search with every probe. closure = ALL arrays up to the tier length over keys {0,1,2} and, for the '
